@@ -153,7 +153,7 @@ def main():
         }],
         "checks": checks,
         "not_applicable": na,
-        "notes": "See DESIGN.md (section 13 = what was built). Every check: exit 0 held / exit 1 with VIOLATION line / exit 2 tool error. known_findings.json lists recorded (2) and fixed (11) defects. Beyond the 20 properties the specification covers eight extension components (./check X01..X08, lib/ext.py: CharString index layer, preprocessing pipeline, task inputs and postprocessing, chat template, inference loader, line reader, regex-built text helpers, Unicode normalisation and JSON decoding); they print EXT-VIOLATION, write evidence/ext/ and are not registered here. Hook commits 0328edf and d29d63d serve only those extensions.",
+        "notes": "See DESIGN.md (section 13 = what was built). Every check: exit 0 held / exit 1 with VIOLATION line / exit 2 tool error. known_findings.json lists recorded (2) and fixed (11) defects. Beyond the 20 properties the specification covers nine extension components (./check X01..X09, lib/ext.py: CharString index layer, preprocessing pipeline, task inputs and postprocessing, chat template, inference loader, line reader, regex-built text helpers, Unicode normalisation and JSON decoding, the sliding-window finder and run-length coding); they print EXT-VIOLATION, write evidence/ext/ and are not registered here. Hook commits 0328edf and d29d63d serve only those extensions.",
     }
     with open(os.path.join(VERIF, "MANIFEST.json"), "w") as f:
         json.dump(m, f, indent=1)
